@@ -72,6 +72,18 @@ def make_case(seed, i, force_end=None):
         sub = lr.choice(["sub", "shared/types"])
         tgt.files[sub + "/" + fn] = tgt.files.pop(fn)
         subdir_file = "%s/%s/%s" % (tgt.dirname, sub, fn)
+    # a directly imported package that the manifest names through a symbolic link (a checkout shared between projects); in
+    # half of these cases one of its model files lies in a sub-directory
+    links = {}
+    sl = rng.fork("symlinked")
+    if pkg.imports and sl.chance(0.15):
+        imp_ = pkg.imports[0]
+        imp_.via_link = True
+        links["/w/%s_link" % imp_.dirname] = "/w/" + imp_.dirname
+        if sl.chance(0.5) and not any("/" in fn_ for fn_ in imp_.files):
+            fn_ = sl.choice(sorted(imp_.files))
+            imp_.files["sub/" + fn_] = imp_.files.pop(fn_)
+            subdir_file = subdir_file or "%s/sub/%s" % (imp_.dirname, fn_)
     state = pkg
     files0 = M.render_tree(state, "/w")
     M.add_clutter(files0, rng.fork("clutter"))
@@ -446,7 +458,7 @@ def make_case(seed, i, force_end=None):
         for e_ in edits:
             if e_.get("kind") in ("write", "backup") and e_.get("path") == invalid_from_start:
                 e_["kind"] = "atomic"
-    doc = {"files": files0, "cwd": "/w/pkg", "edits": edits, "sched": sched, "faults": faults, "config_args": config_args,
+    doc = {"files": files0, "cwd": "/w/pkg", "edits": edits, "sched": sched, "faults": faults, "config_args": config_args, "links": links,
            "mapseed": rng.next() % (1 << 31) + 1, "seed": seed,
            "case": {"i": i, "targets": targets, "imports": len(pkg.imports), "versions": len(pkg.versions), "edit_log": log,
                     "n_edit_ops": len(edits), "ends_invalid": end_invalid, "unfinished_file": unfinished, "invalid_from_start": bool(invalid_from_start), "model_file_in_subdirectory": subdir_file}}
@@ -476,6 +488,8 @@ def execute(sim, doc):
     """Returns (violation record or None, stats)."""
     spec = {"mode": "watch", "files": doc["files"], "cwd": doc["cwd"], "args": ["generate", "--watch"] + list(doc.get("config_args") or []),
             "edits": doc["edits"], "faults": copy.deepcopy(doc.get("faults", [])), "max_steps": 30000, "settle_ms": 60000}
+    if doc.get("links"):
+        spec["links"] = doc["links"]
     if not doc["edits"]:
         spec["faults"] = []                  # faults are transient: with no edit after them nothing can re-trigger a regeneration
     real = [k for k, e in enumerate(doc["edits"]) if e["kind"] != "pause"]
@@ -531,7 +545,7 @@ def execute(sim, doc):
         st["diff_paths"] = [q for _, q in d[:200]]
         return {"class": "not_converged", "first": "%s %s" % (kind, p.replace("/w/", "")), "n_diffs": len(d)}, st
     # O2: regenerations born after the last edit only write what a clean one-shot writes
-    clean = sim.run(tw.oneshot_spec(final_inputs(doc), doc["cwd"], args=tuple(["generate"] + list(doc.get("config_args") or []))), mapseed=doc["mapseed"])
+    clean = sim.run(tw.oneshot_spec(final_inputs(doc), doc["cwd"], args=tuple(["generate"] + list(doc.get("config_args") or [])), **({"links": doc["links"]} if doc.get("links") else {})), mapseed=doc["mapseed"])
     st["runs"] += 1
     if clean.get("status") == "returned" and clean["exit_code"] == 0:
         # O4: every file that a generation of the final package into empty output directories writes is on disk with exactly
@@ -665,6 +679,7 @@ def main():
             tot["final_invalid"] += 1 if st.get("final_invalid") else 0
             tot["cases_with_unfinished_file"] += 1 if "regenerations_started_while_invalid_for_good" in st else 0
             tot["regenerations_started_while_invalid_for_good"] += st.get("regenerations_started_while_invalid_for_good", 0)
+            tot["cases_with_an_import_named_through_a_symbolic_link"] = tot.get("cases_with_an_import_named_through_a_symbolic_link", 0) + (1 if doc.get("links") else 0)
             tot["steps"] += st.get("steps", 0)
             tot["sim_ms"] += st.get("sim_ms", 0)
             tot["faults_fired"] += st.get("faults_fired", 0)
@@ -697,6 +712,7 @@ def main():
         "distinct_interleaving_signatures": len(sigs), "cases_ending_invalid(liveness only)": tot["final_invalid"],
         "cases_with_a_file_that_makes_the_package_invalid_for_good": tot["cases_with_unfinished_file"],
         "regenerations_started_while_invalid_for_good(must write nothing)": tot["regenerations_started_while_invalid_for_good"],
+        "cases_with_an_import_named_through_a_symbolic_link": tot.get("cases_with_an_import_named_through_a_symbolic_link", 0),
         "reach_probes": probes,
         "fault_kinds": {"transient_EIO_or_ENOSPC_fired": tot["faults_fired"], "event_duplicated": probes.get("event_duplicated", 0),
                         "event_coalesced": probes.get("event_coalesced", 0), "overflow_error_delivered": probes.get("overflow_error_delivered", 0),
